@@ -19,6 +19,7 @@ func init() {
 			"(R11.3) function coverage: the converter consumes every part of an ssa.Function that carries behaviour — FreeVars, AnonFuncs, Blocks, Signature (parameters and results) and Recover — or rejects functions that have it; " +
 			"(R11.4) directive parameters are bounded by their maxima and unknown hardening names are rejected; " +
 			"(R11.5) the comparison guarding a trash block is drawn only from operators for which constant.Compare is false; " +
+			"(R11.7) block splitting repairs Preds in every block and never cuts inside the leading phis; (R11.8) constants are emitted exactly (no abbreviating formatter); (R11.9) every declared tuple component is assigned; (R11.10) an Alloc is converted to new(T) where it executes, or is a recorded named result; " +
 			"(R11.6) phi lowering is staged: predecessors assign a staging variable, the phi's block copies it (no swap or lost-copy problem). " +
 			"Does not decide semantic preservation by flattening, splitting, junk and trash insertion or hardening.",
 		perConfig: checkC11,
@@ -624,4 +625,134 @@ func checkC11(c *Ctx) {
 	}
 	c.Check(phiAware, "R11.7", "cut position skips the leading phis", w.Pos(sp.Pos()), "applySplitting counts the *ssa.Phi prefix of the block",
 		"the cut may fall between two phis of a loop header: the second phi lands in a block with one predecessor and the converter panics or assigns it from the wrong edge")
+
+	// R11.8 ---------------------------------------------------------------
+	// go/constant's Value.String is "a short, quoted (human-readable) form": floats come
+	// out as %.6g. A constant printed with it changes value (x * 0.123456789012 becomes
+	// x * 0.123457). Only ExactString, or a formatter of the extracted machine value, keeps it.
+	c.Rule("R11.8", "constants are emitted exactly: no abbreviating formatter in ConstToAst", 1)
+	if cta := w.Fn("asthelper.ConstToAst"); cta == nil {
+		c.Undecided("R11.8", "ConstToAst", "", "function not found")
+	} else {
+		bad := ""
+		for _, b := range cta.Blocks {
+			for _, in := range b.Instrs {
+				call, ok := in.(*ssa.Call)
+				if !ok || !call.Call.IsInvoke() {
+					continue
+				}
+				if call.Call.Method.Name() == "String" && strings.HasSuffix(call.Call.Value.Type().String(), "constant.Value") {
+					bad = "ConstToAst prints a constant with Value.String() at " + w.Pos(call.Pos()) + ", an approximation (floats keep 6 significant digits): the rewritten function computes with a different constant"
+				}
+			}
+		}
+		c.Check(bad == "", "R11.8", "ConstToAst formatters", w.Pos(cta.Pos()), "ExactString or strconv on the machine value", bad)
+	}
+
+	// R11.9 ---------------------------------------------------------------
+	// A component of an instruction's result tuple that later code reads gets a variable
+	// (declared through astFunc.Vars). If the case never builds an identifier from that
+	// name, nothing assigns the variable and its readers see the zero value
+	// ("case v, ok := <-ch" in a select: ok is always false).
+	c.Rule("R11.9", "every declared tuple component is assigned: its name is used to build an identifier", 4)
+	if cbf := w.Fn("ssa2ast.(*funcConverter).convertBlock"); cbf == nil {
+		c.Undecided("R11.9", "convertBlock tuple components", "", "convertBlock not found")
+	} else {
+		n := 0
+		for _, cs := range w.CallsTo("(*mvdan.cc/garble/internal/ssa2ast.funcConverter).tupleVarNameAndType") {
+			if cs.Fn != cbf {
+				continue
+			}
+			tuple, ok := cs.Instr.(*ssa.Call)
+			if !ok || tuple.Referrers() == nil {
+				continue
+			}
+			for _, r := range *tuple.Referrers() {
+				ex, ok := r.(*ssa.Extract)
+				if !ok || ex.Index != 0 || ex.Referrers() == nil {
+					continue
+				}
+				n++
+				declared, used := false, false
+				for _, u := range *ex.Referrers() {
+					switch x := u.(type) {
+					case *ssa.MapUpdate:
+						if x.Key == ssa.Value(ex) {
+							declared = true
+						}
+					case *ssa.Call:
+						if calleeName(x) == "go/ast.NewIdent" {
+							used = true
+						}
+					}
+				}
+				key := fmt.Sprintf("convertBlock tuple component #%d (%s)", n, valueDesc(tuple.Call.Args[len(tuple.Call.Args)-1]))
+				c.Check(!declared || used, "R11.9", key, w.Pos(tuple.Pos()), "declared and assigned, or never declared",
+					"a tuple component is declared as a variable but no identifier is ever built from its name: the variable stays zero (recvOk of a select, a comma-ok result, ...)")
+			}
+		}
+		if n == 0 {
+			c.Undecided("R11.9", "convertBlock tuple components", w.Pos(cbf.Pos()), "no tupleVarNameAndType call found")
+		}
+	}
+
+	// R11.10 --------------------------------------------------------------
+	// An ssa.Alloc is executed: each time control passes it, it yields fresh zeroed storage
+	// ("var hist [4]int" in a loop body starts from zero in every iteration). The converter
+	// must therefore emit an allocating expression, new(T), at that point; a variable
+	// declared once for the function is not re-zeroed. The one exception is a named result
+	// that a recovering deferred call may have to see, which is the function's own result.
+	c.Rule("R11.10", "an Alloc yields fresh zeroed storage every time it executes: it is converted to new(T), or is a recorded named result", 1)
+	if cbf := w.Fn("ssa2ast.(*funcConverter).convertBlock"); cbf != nil {
+		var body *ssa.BasicBlock
+		for _, ts := range typeSwitches(cbf) {
+			for _, cse := range ts.Cases {
+				if strings.HasSuffix(cse.Type.String(), "ssa.Alloc") {
+					body = cse.Body
+				}
+			}
+		}
+		if body == nil {
+			c.Undecided("R11.10", "convertBlock Alloc case", w.Pos(cbf.Pos()), "no case for *ssa.Alloc found")
+		} else {
+			n, bad := 0, ""
+			for _, b := range cbf.Blocks {
+				if !body.Dominates(b) {
+					continue
+				}
+				for _, in := range b.Instrs {
+					call, ok := in.(*ssa.Call)
+					if !ok || call.Call.IsInvoke() || len(call.Call.Args) != 2 {
+						continue
+					}
+					// the defineVar closure: (register, ast.Expr) -> ast.Stmt
+					if !strings.Contains(call.Call.Signature().String(), "register") && !strings.Contains(calleeName(call), "convertBlock$") {
+						continue
+					}
+					if _, isExpr := call.Call.Args[1].Type().Underlying().(*types.Interface); !isExpr {
+						continue
+					}
+					n++
+					sl := w.BackSlice(call.Call.Args[1], sliceOpt{})
+					isNew := false
+					for _, cv := range sl.Calls["mvdan.cc/garble/internal/asthelper.CallExprByName"] {
+						if nm, ok := constString(cv.(*ssa.Call).Call.Args[0]); ok && nm == "new" {
+							isNew = true
+						}
+					}
+					isNamedResult := sl.Fields["funcConverter.namedResults"]
+					if !isNew && !isNamedResult {
+						bad = "the Alloc case at " + w.Pos(call.Pos()) + " defines the pointer from something other than new(T) or a recorded named result: storage declared once per function is not zeroed again when a loop body declares the variable anew"
+					}
+				}
+			}
+			if n == 0 {
+				c.Undecided("R11.10", "convertBlock Alloc case", w.Pos(cbf.Pos()), "the Alloc case defines no variable")
+			} else {
+				c.Check(bad == "", "R11.10", "convertBlock Alloc case", w.Pos(cbf.Pos()), fmt.Sprintf("%d definitions: new(T) or named result", n), bad)
+			}
+		}
+	} else {
+		c.Undecided("R11.10", "convertBlock Alloc case", "", "convertBlock not found")
+	}
 }
